@@ -1,10 +1,13 @@
 package main
 
 import (
+	"syscall"
+
 	"bytes"
 	"context"
 	"encoding/binary"
 	"fmt"
+	"github.com/pkg/xattr"
 	"math/rand"
 	"os"
 	"path/filepath"
@@ -363,8 +366,23 @@ func runC18(cfg Config) {
 		rep.Disagree(Disagreement{Kind: "monitor", Case: clip(caseLine, 100000), Impl: clip(impl, 1000), What: what})
 	}
 	hostileNames := []string{"..", ".", "", "a/b", "/abs", "../x", "a/../../x", "x\x00y", "ok", "dir", "link", "..\x00", "...", " ", strings.Repeat("A", 300), "a/", "/"}
+	attrMode := false // set per archive: entries with varied owners, set-id/sticky bits and extended attributes
 	entry := func(mode uint64) []byte {
-		return le(64, desync.CaFormatEntry, desync.TarFeatureFlags, mode, 0, uint64(os.Getuid()), uint64(os.Getgid()), 1500000000_000000000)
+		uid, gid := uint64(os.Getuid()), uint64(os.Getgid())
+		var xs []byte
+		if attrMode {
+			if rng.Intn(2) == 0 {
+				uid, gid = uint64(rng.Intn(3)*500), uint64(rng.Intn(3)*700)
+			}
+			if mode&0o170000 != 0o120000 && rng.Intn(2) == 0 {
+				mode = mode&^0o7777 | uint64([]int{0o4755, 0o2755, 0o2745, 0o6711, 0o1777, 0o644, 0o600, 0o4700}[rng.Intn(8)])
+			}
+			for k := 0; k < rng.Intn(3); k++ {
+				nv := fmt.Sprintf("user.k%d\x00%s", rng.Intn(3), string(randBytes(rng, rng.Intn(6))))
+				xs = append(xs, append(le(uint64(16+len(nv)+1), desync.CaFormatXAttr), append([]byte(nv), 0)...)...)
+			}
+		}
+		return append(le(64, desync.CaFormatEntry, desync.TarFeatureFlags, mode, 0, uid, gid, 1500000000_000000000), xs...)
 	}
 	fname := func(n string) []byte {
 		return append(append(le(uint64(16+len(n)+1), desync.CaFormatFilename), []byte(n)...), 0)
@@ -384,6 +402,7 @@ func runC18(cfg Config) {
 		nn := 1 + rng.Intn(6)
 		depth := 0
 		names := 0
+		attrMode = it%2 == 0
 		noname := it%4 == 1 // archives in which some entries come without a filename element
 		benign := it%4 == 2 // only well-formed names: deeper runs, directories re-used after being left
 		if benign || noname {
@@ -518,7 +537,8 @@ func runC18(cfg Config) {
 			before := snapshotOutside(sandbox)
 			initial := fsEntries(sandbox)
 			nsp := rng.Intn(2) == 0
-			fs := desync.NewLocalFS(dst, desync.LocalFSOptions{NoSameOwner: true, NoSamePermissions: nsp})
+			nso := rng.Intn(2) == 0 || os.Getuid() != 0
+			fs := desync.NewLocalFS(dst, desync.LocalFSOptions{NoSameOwner: nso, NoSamePermissions: nsp})
 			var uerr error
 			guard(func() string { uerr = desync.UnTar(context.Background(), bytes.NewReader(b), fs); return "" })
 			after := snapshotOutside(sandbox)
@@ -527,7 +547,7 @@ func runC18(cfg Config) {
 			}
 			rep.Histogram["disk-runs"]++
 			// correspondence of the LocalFS / POSIX model: same archive, same initial tree -> same final tree
-			lline := fmt.Sprintf("lfs.untar root=%s nso=1 nsp=%d fs=%s bytes=%s", hx([]byte(dst)), b2i(nsp), strings.Join(append(ancestorEntries(sandbox), initial...), ";"), hx(b))
+			lline := fmt.Sprintf("lfs.untar root=%s nso=%d nsp=%d fs=%s bytes=%s", hx([]byte(dst)), b2i(nso), b2i(nsp), strings.Join(append(ancestorEntries(sandbox), initial...), ";"), hx(b))
 			if want := m.Ask(lline); want != "no-model" {
 				gotFS := "err"
 				if uerr == nil {
@@ -537,7 +557,7 @@ func runC18(cfg Config) {
 					rep.Disagree(Disagreement{Kind: "correspondence", Case: clip(lline, 100000), Model: clip(want, 3000), Impl: clip(gotFS+" "+strings.Join(fsEntries(sandbox), ";"), 3000),
 						What: "LocalFS model and the real file system differ after UnTar: " + diff})
 				}
-				rep.Count(lline, names >= 2, "lfs:"+gotFS)
+				rep.Count(lline, names >= 2, "lfs:"+gotFS, fmt.Sprintf("lfs-opts:nso=%v,nsp=%v,attrs=%v:%s", nso, nsp, attrMode, gotFS))
 			}
 		}
 	}
@@ -579,7 +599,7 @@ func snapshotOutside(sandbox string) string {
 }
 
 // fsEntries lists the tree at top (links not followed) in the model's entry format:
-// <hex real path>|<d|f|l|v>|<hex data or target>|<mtime ns>
+// <hex real path>|<d|f|l|v>|<hex data or target>|<mtime ns>|<uid:gid>|<mode & 07777>|<khex=vhex,...>
 func fsEntries(top string) []string {
 	var out []string
 	filepath.Walk(top, func(p string, info os.FileInfo, err error) error {
@@ -587,17 +607,29 @@ func fsEntries(top string) []string {
 			return nil
 		}
 		mt := fmt.Sprint(info.ModTime().UnixNano())
+		attr := "-|-|"
+		if st, ok := info.Sys().(*syscall.Stat_t); ok {
+			var xs []string
+			if keys, err := xattr.LList(p); err == nil {
+				sort.Strings(keys)
+				for _, k := range keys {
+					v, _ := xattr.LGet(p, k)
+					xs = append(xs, hx([]byte(k))+"="+hx(v))
+				}
+			}
+			attr = fmt.Sprintf("%d:%d|%d|%s", st.Uid, st.Gid, st.Mode&07777, strings.Join(xs, ","))
+		}
 		switch {
 		case info.IsDir():
-			out = append(out, hx([]byte(p))+"|d||"+mt)
+			out = append(out, hx([]byte(p))+"|d||"+mt+"|"+attr)
 		case info.Mode()&os.ModeSymlink != 0:
 			t, _ := os.Readlink(p)
-			out = append(out, hx([]byte(p))+"|l|"+hx([]byte(t))+"|-")
+			out = append(out, hx([]byte(p))+"|l|"+hx([]byte(t))+"|-|"+attr)
 		case info.Mode().IsRegular():
 			b, _ := os.ReadFile(p)
-			out = append(out, hx([]byte(p))+"|f|"+hx(b)+"|"+mt)
+			out = append(out, hx([]byte(p))+"|f|"+hx(b)+"|"+mt+"|"+attr)
 		default:
-			out = append(out, hx([]byte(p))+"|v||"+mt)
+			out = append(out, hx([]byte(p))+"|v||"+mt+"|"+attr)
 		}
 		return nil
 	})
@@ -608,7 +640,7 @@ func fsEntries(top string) []string {
 func ancestorEntries(top string) []string {
 	var out []string
 	for d := filepath.Dir(top); d != "/" && d != "."; d = filepath.Dir(d) {
-		out = append(out, hx([]byte(d))+"|d||-")
+		out = append(out, hx([]byte(d))+"|d||-|-|-|")
 	}
 	return out
 }
@@ -623,19 +655,27 @@ func compareFS(model, verdict string, disk []string, top string) string {
 	if parts[0] != verdict {
 		return "verdict: model " + parts[0] + ", implementation " + verdict
 	}
-	type ent struct{ kind, payload, mt string }
+	type ent struct{ kind, payload, mt, owner, mode, xattrs string }
+	sortX := func(x string) string {
+		if x == "" {
+			return x
+		}
+		l := strings.Split(x, ",")
+		sort.Strings(l)
+		return strings.Join(l, ",")
+	}
 	parse := func(es []string) map[string]ent {
 		m := map[string]ent{}
 		for _, e := range es {
 			f := strings.Split(e, "|")
-			if len(f) != 4 {
+			if len(f) != 7 {
 				continue
 			}
 			p := string(unhx(f[0]))
 			if p != top && !strings.HasPrefix(p, top+"/") {
 				continue
 			}
-			m[p] = ent{f[1], f[2], f[3]}
+			m[p] = ent{f[1], f[2], f[3], f[4], f[5], sortX(f[6])}
 		}
 		return m
 	}
@@ -666,6 +706,12 @@ func compareFS(model, verdict string, disk []string, top string) string {
 			return fmt.Sprintf("%s: model %s:%s, disk %s:%s", k, a.kind, clip(a.payload, 40), d.kind, clip(d.payload, 40))
 		case a.mt != "-" && a.mt != d.mt:
 			return fmt.Sprintf("%s: mtime model %s, disk %s", k, a.mt, d.mt)
+		case a.owner != "-" && a.owner != d.owner:
+			return fmt.Sprintf("%s: owner model %s, disk %s", k, a.owner, d.owner)
+		case a.mode != "-" && a.mode != d.mode:
+			return fmt.Sprintf("%s: mode model %s, disk %s", k, a.mode, d.mode)
+		case a.xattrs != d.xattrs:
+			return fmt.Sprintf("%s: xattrs model %s, disk %s", k, a.xattrs, d.xattrs)
 		}
 	}
 	return ""
